@@ -11,7 +11,7 @@ CHECKS = {
  "C01": dict(
     level="model_checking", ref="DESIGN.md §4 C01",
     technique="TLA+ spec RtStream/RtStreamAbs checked by TLC + TLC-generated call sequences replayed through libovni and validated against the spec (trace validation)",
-    text="TLC explores every call sequence of the scaled faithful model (CAP=56) and every fill level of the real 2 MiB buffer in the size-abstracted model; invariants Fidelity, OnlyMarkers, HeaderFirst, Tiling, BufferBound. The spec is bound to src/rt/ovni.c by replaying every call at every one of the last 64 fill levels plus TLC -simulate walks through the real library and validating the recorded file sizes and the decoded stream with RtStreamTrace.tla; runs are repeated under an LD_PRELOAD shim that makes write() truthfully short, and three-thread programs (all threads freeing at once, with and without relocation from OVNI_TMPDIR) are validated stream by stream; scripts also run with relocation, with 7-digit pid/tid, without the execute event in front and with every sequence of up to three small events before the first flush. The inductive invariant 0 <= fill < CAP and no nested flush (RtStreamInd.tla, same arithmetic module) is discharged by Apalache for the real capacity and a symbolic jumbo size.",
+    text="TLC explores every call sequence of the scaled faithful model (CAP=56) and every fill level of the real 2 MiB buffer in the size-abstracted model; invariants Fidelity, OnlyMarkers, HeaderFirst, Tiling, BufferBound. The spec is bound to src/rt/ovni.c by replaying every call at every one of the last 64 fill levels plus TLC -simulate walks through the real library and validating the recorded file sizes and the decoded stream with RtStreamTrace.tla; runs are repeated under an LD_PRELOAD shim that makes write() truthfully short, and three-thread programs (all threads freeing at once, with and without relocation from OVNI_TMPDIR) are validated stream by stream; scripts also run with relocation, with 7-digit pid/tid, without the execute event in front, with payloads handed over in several ovni_payload_add calls, with the wall clock stepped backwards under the shim, and with every sequence of up to three small events before the first flush. The inductive invariant 0 <= fill < CAP and no nested flush (RtStreamInd.tla, same arithmetic module) is discharged by Apalache for the real capacity and a symbolic jumbo size.",
     note="Payload/jumbo bytes are opaque ids in TLA+; their byte equality (MCV, clock, payload, jumbo data) is checked by the harness decoder against the driver's emit log. Logical clock abstracts CLOCK_MONOTONIC. Exhaustive only within the stated constants."),
  "C02": dict(
     level="model_checking", ref="DESIGN.md §4 C02",
@@ -32,7 +32,7 @@ CHECKS = {
  "C06": dict(
     level="model_checking", ref="DESIGN.md §4 C06",
     technique="TLA+ specs Emu (View = function of thread state, binding and raw channel values) and Bay (channel/patch-bay/mux implementation layer) explored by TLC over all interleavings of value/state/affinity events and all write orders; Bay behaviours replayed in-process on chan.c/bay.c/mux.c; histories replayed on ovniemu for every published channel of every model; views validated by EmuTrace.tla",
-    text="Property layer View(thread/CPU, quantity, tracking mode) is checked on the real Paraver output after every event of TLC-generated histories (one channel per tracking mode ANY/RUN/ACT, stack and single), and the accepted histories are re-instantiated for each of the 19 published channels of the 8 models (table spec/data/events.json), with virtual CPUs in the alphabet, and for the stack and single mark channels of the ovni model. Implementation layer Bay.tla (chan_set / dirty list / mux callbacks of chan.c, bay.c, mux.c; every write order of an event; three refuted wrong variants) is replayed in-process on the real chan/bay/mux objects (drivers/bayharness). The traces recorded by the repository's own emulation test programs are validated against the same View (suite traces).",
+    text="Property layer View(thread/CPU, quantity, tracking mode) is checked on the real Paraver output after every event of TLC-generated histories (one channel per tracking mode ANY/RUN/ACT, stack and single), and the accepted histories are re-instantiated for each of the 19 published channels of the 8 models (table spec/data/events.json), with virtual CPUs in the alphabet, and for the stack and single mark channels of the ovni model; an explicit family puts three and four running threads on the virtual CPU. Implementation layer Bay.tla (chan_set / dirty list / mux callbacks of chan.c, bay.c, mux.c; every write order of an event; three refuted wrong variants) is replayed in-process on the real chan/bay/mux objects (drivers/bayharness). The traces recorded by the repository's own emulation test programs are validated against the same View (suite traces).",
     note="Bay.tla models one mux (select + N inputs + output), the wiring used for thread and CPU tracking; the whole-emulator composition is bound through the property layer. CPU idle default (Resting) is allowed where the property allows it."),
  "C07": dict(
     level="model_checking", ref="DESIGN.md §4 C07",
@@ -42,7 +42,7 @@ CHECKS = {
  "C08": dict(
     level="model_checking", ref="DESIGN.md §4 C08",
     technique="TLA+ spec Emu (stack machine over committed event tables EventData.tla) explored by TLC per model; transition cover + every enter/leave pair of all 8 models in 10 shapes + depth probes replayed on ovniemu -l and validated by EmuTrace.tla",
-    text="For each model a bounded instance (3 region kinds, bystander thread, thread state changes) is explored and replayed; additionally all 149 push/pop pairs of the tables are exercised (enter/leave/mismatch/empty/lint/state precondition incl. paused, cooling and warming/nesting) and the 512-deep stack limit is probed; the value shown for the innermost region comes from the committed table.",
+    text="For each model a bounded instance (3 region kinds, for Nanos6 also two tasks whose execution nests on the same stack, bystander thread, thread state changes) is explored and replayed; additionally all 149 push/pop pairs of the tables are exercised (enter/leave/mismatch/empty/lint/state precondition incl. paused, cooling and warming/nesting) and the 512-deep stack limit is probed; the value shown for the innermost region comes from the committed table.",
     note="Tables are committed data (spec/data/events.json) transcribed from documentation and model tables; immediate re-entry is Unspecified."),
  "C17": dict(
     level="model_checking", ref="DESIGN.md §4 C17",
@@ -95,7 +95,7 @@ CHECKS = {
  "C03": dict(
     level="model_checking", ref="DESIGN.md §4 C03",
     technique="TLA+ specs Player/PlayerMerge (property layer Merge), PtrHeap/PlayerHeap/HeapOps (heap.h and player.c transcribed) checked by TLC incl. refinement HeapPlayer => Merge; exported heap op sequences replayed on the real heap.h (drivers/heapharness), exported stream sets replayed through ovnidump/ovnitop/ovniemu in several enumeration orders and validated by PlayerTrace.tla",
-    text="TLC checks the structural heap invariants and that every emission of the pointer-heap player is an allowed step of the abstract k-way merge (ties free), corrected clocks and output times, independence of the enumeration order, with 12 refuted negative configurations. ~19k heap op sequences are replayed on heap.h comparing popped keys and the whole pointer structure; 1200 (quick) stream sets with offset tables are materialised in several directory orders (and nftw orders through a shim), also with clocks seconds apart, with looms sharing a host name, with offset tables in integer / fixed / exponent notation and with a loom or thread directory reached through a symbolic link, and the observed replay order / PRV times validated by TLC.",
+    text="TLC checks the structural heap invariants and that every emission of the pointer-heap player is an allowed step of the abstract k-way merge (ties free), corrected clocks and output times, independence of the enumeration order, with 12 refuted negative configurations. ~19k heap op sequences are replayed on heap.h comparing popped keys and the whole pointer structure; 1200 (quick) stream sets with offset tables are materialised in several directory orders (and nftw orders through a shim), also with clocks seconds apart, with looms sharing a host name, with offset tables in integer / fixed / exponent notation with an extra event-less non-thread stream and with a loom or thread directory reached through a symbolic link, and the observed replay order / PRV times validated by TLC.",
     note="ovnidump/ovnitop have no clock-offset input (offsets exercised on ovniemu only); a stream whose first corrected clock is negative is refused by the code (modelled via Base, assumption)."),
  "C12": dict(
     level="model_checking", ref="DESIGN.md §4 C12",
